@@ -17,7 +17,7 @@ from vf import tricky
 MOD = "debian._deb822_repro.parsing"
 
 NEWVALS = ["x", "x y", "m1\n m2", "\n only\n cont", "t\n# c\n u", "a  b\tc   d", "  lead and trail\t ", "x\n  two  spaces \n\ttab\t.",
-           ": colon", "é  ü", "v #c", "\n .\n  x"] + tricky.VALUE_BITS + ["m\n " + b for b in tricky.VALUE_BITS[:14]]
+           ": colon", "é  ü", "v #c", "\n .\n  x", "\n libfoo", "\n\tone line only ", "x\n y"] + tricky.VALUE_BITS + ["m\n " + b for b in tricky.VALUE_BITS[:14]]
 
 
 def norm(v):
